@@ -51,6 +51,17 @@ def gen_cases(tier, seed):
                         yield {'family': fam, 'workers': w, 'pred': pred, 'n': n, 'idx': i, 'seed': seed, 'rep': rep,
                                'layout': rng.choice(['single', 'single', 'unselected_neighbour', 'two_selected']),
                                'yield_injection': tier == 'thorough' and i % 10 == 0}
+    # long pauses (seconds, not milliseconds): an upstream source that stalls mid-stream, and one row whose row
+    # function is slow while the other workers have long finished - timeouts / liveness heuristics inside the
+    # implementation must not turn such pauses into lost rows
+    pauses = {'quick': [('upstream_stall', 6.5), ('slow_row', 2.5), ('upstream_stall', 1.5), ('slow_row', 6.5)],
+              'thorough': [('upstream_stall', 6.5), ('slow_row', 2.5), ('upstream_stall', 1.5), ('slow_row', 6.5),
+                           ('upstream_stall', 12.0), ('slow_row', 12.0)]}[tier]
+    for fam, secs in pauses:
+        for w in (2, 3):
+            i += 1
+            yield {'family': fam, 'workers': w, 'pred': 'none' if fam == 'slow_row' else 'every_3rd', 'n': 40, 'idx': i,
+                   'seed': seed, 'rep': 0, 'layout': 'single', 'yield_injection': False, 'pause_s': secs}
 
 
 def predicate_for(name, n):
@@ -71,13 +82,24 @@ def child_main(case, logpath, outpath):
         install_yield_injection()
     pred = predicate_for(case['pred'], n)
 
+    pause = case.get('pause_s', 0)
+
     def row_func(row):
         labo.log('apply', 'row_func', row.get('id'))
+        if case['family'] == 'slow_row' and row.get('id') == n - 3:
+            time.sleep(pause)
         row['_applied'] = row.get('_applied', 0) + 1
         row['_pid'] = os.getpid()
+
+    def rows_a():
+        for i in range(n):
+            if case['family'] == 'upstream_stall' and i == n // 2:
+                time.sleep(pause)
+            yield {'id': i, 'v': 'a%d' % i}
     F = [{'name': 'id', 'type': 'integer'}, {'name': 'v', 'type': 'string'}, {'name': '_applied', 'type': 'integer'},
          {'name': '_pid', 'type': 'integer'}]
-    steps = [lab.source('a', F, [{'id': i, 'v': 'a%d' % i} for i in range(n)])]
+    desc_a = {'resources': [{'name': 'a', 'path': 'a.csv', 'schema': {'fields': F}}]}
+    steps = [d.load((desc_a, [rows_a()]), strip=False)]
     sel = 'a'
     if case['layout'] == 'unselected_neighbour':
         steps.append(lab.source('b', F, [{'id': 1000 + i, 'v': 'b%d' % i} for i in range(5)]))
@@ -160,7 +182,7 @@ def run_case(case):
         now = time.time()
         if size != last_size:
             last_size, last_change = size, now
-        elif now - last_change > QUIET_S:
+        elif now - last_change > QUIET_S + case.get('pause_s', 0):
             ev = schedlab.read_log(logpath)
             alive, blocked = schedlab.blocked_actors(ev)
             groups = {e['q'] for e in ev if e['q'].startswith('q_in#')}
@@ -170,7 +192,7 @@ def run_case(case):
                 verdict_deadlock = 'no event for %.0fs; every live actor is blocked in get: %s' % (
                     QUIET_S, sorted('%s@%s' % (e['role'], e['q']) for e in blocked.values()))
                 break
-        if now - t0 > WATCHDOG_S:
+        if now - t0 > WATCHDOG_S + 3 * case.get('pause_s', 0):
             break
         time.sleep(0.005)
     try:
